@@ -1,5 +1,5 @@
 (** C11 property theorems, for every commutative ring (so for R, i.e. all of SO(3) when |q| = 1). *)
-From Coq Require Import ZArith Ring List.
+From Coq Require Import ZArith QArith Ring List.
 From Acryo Require Import Common.PyNum Common.Ring3 C11.Model C11.Proofs.
 From AcryoGen Require Import Anchors_C11.
 Import ListNotations.
@@ -78,6 +78,12 @@ Theorem C11_from_axes_partial : forall n, n = (0, 1, 0)%Z \/ n = (0, -1, 0)%Z ->
   rotpi n (0, 1, 0)%Z = (0, 1, 0)%Z /\ rotpi n (1, 0, 0)%Z = (-1, 0, 0)%Z.
 Proof. exact from_axes_step2_partial. Qed.
 
+Theorem C11_local_grid_centred : forall s k : Z,
+  (lc_center s == (inject_Z s - 1) / (2#1))%Q /\
+  ((inject_Z k - lc_center s) + (inject_Z (s - 1 - k) - lc_center s) == 0)%Q.
+Proof. intros s k. split; [apply lc_center_spec | apply lc_point_symmetric]. Qed.
+
+Print Assumptions C11_local_grid_centred.
 Print Assumptions C11_axes_images.
 Print Assumptions C11_orthonormal.
 Print Assumptions C11_right_handed.
